@@ -349,3 +349,80 @@ pub fn c19(rep: &mut Report, n: usize, seed: u64, thorough: bool) {
         rep.count("threaded-batches");
     }
 }
+
+// ------------------------------------------------------------------ C12 (class level)
+
+/// `^E$` for generated class expressions E, on every character E mentions, their case partners,
+/// neighbours of range ends, a few fixed probes, and the strings E mentions (+ single-edit variants);
+/// the expected answer comes from the ES specification model (`esfind` lines).
+pub fn c12_classes(rep: &mut Report, n: usize, seed: u64, thorough: bool) {
+    let mut rng = Rng::new(seed);
+    let cfg = GenCfg::default();
+    let mut done = 0;
+    while done < n {
+        let mut flags = Flags::random(&mut rng);
+        if rng.chance(1, 2) {
+            flags.u = false;
+            flags.v = true;
+        }
+        flags.m = false;
+        let (node, cls) = Gen::new(&mut rng, flags, &cfg).class_pattern(if thorough { 3 } else { 2 });
+        let pat = ast::pattern_string(&node, flags);
+        let fs = flags.to_string();
+        let re = match guarded(|| compile(&pat, &fs, false)) {
+            Ok(Ok(re)) => re,
+            Ok(Err(e)) => {
+                rep.violation("impl-vs-spec:C08", format!("valid class pattern rejected: /{}/{}: {}", pat, fs, e), format!("/{}/{}", pat, fs));
+                continue;
+            }
+            Err(m) => {
+                rep.violation("panic:C07", format!("compilation panicked: /{}/{}: {}", pat, fs, m), format!("/{}/{}", pat, fs));
+                continue;
+            }
+        };
+        let mut chars = vec![];
+        let mut strs = vec![];
+        ast::class_mentions(&cls, &mut chars, &mut strs);
+        let mut probes: Vec<Vec<u32>> = vec![vec![]];
+        let mut cs: Vec<u32> = vec!['a' as u32, 'k' as u32, 'K' as u32, 0x212A, 's' as u32, 0x17F, '0' as u32, '_' as u32, ' ' as u32, 0xE9, 0x1F600, '-' as u32, 'Z' as u32];
+        for c in chars {
+            cs.extend(ast::case_partners(c));
+        }
+        cs.sort();
+        cs.dedup();
+        for c in cs {
+            if char::from_u32(c).is_some() {
+                probes.push(vec![c]);
+            }
+        }
+        for s in strs {
+            probes.push(s.clone());
+            probes.push(s.iter().map(|c| *ast::case_partners(*c).last().unwrap()).collect());
+            if s.len() > 1 {
+                probes.push(s[..s.len() - 1].to_vec());
+                let mut t = s.clone();
+                t.push('a' as u32);
+                probes.push(t);
+            }
+        }
+        probes.sort();
+        probes.dedup();
+        for h in probes {
+            if h.iter().any(|c| char::from_u32(*c).is_none()) {
+                continue;
+            }
+            let hay = ast::to_string(&h);
+            done += 1;
+            let r = run_exec(&re, Exec::Bt, &hay, 0, 1);
+            let first = r.text.split(' ').next().unwrap_or("").to_string();
+            rep.case(&format!("/{}/{} {:?}", pat, fs, hay), !first.is_empty());
+            rep.count(if first.is_empty() { "no-match" } else { "match" });
+            rep.count(&format!("flags:{}", flags.to_token()));
+            rep.count(match &cls { Node::VClass(true, _) => "kind:negated-vclass", Node::VClass(false, _) => "kind:vclass", Node::Class(true, _) => "kind:negated-class", _ => "kind:class" });
+            rep.tie(
+                format!("esfind {} {} {} 0", flags.to_token(), ast::ast_string(&node), ast::cps_hex(&h)),
+                if first.is_empty() { "none".into() } else { format!("m {}", first) },
+            );
+        }
+    }
+}
